@@ -148,8 +148,10 @@ func runListCase(c *ListCase, b *Batch, res *Result) error {
 var listingProp = "C11"
 
 func streamListing(cfg *Config, res *Result) error {
-	if cfg.Prop == "C04" {
-		listingProp = "C04"
+	if cfg.Prop == "C04" || cfg.Prop == "C15" {
+		// C04: "cannot … list"; C15: the visible entries of a directory are listed exactly as the
+		// underlying filesystem lists them (same entries, same pages but for the filtered ones)
+		listingProp = cfg.Prop
 	}
 	r := newRNG(cfg.Seed, "listing")
 	n := 1500
